@@ -124,6 +124,8 @@ type Path struct {
 	verdicts  int
 	queries   int
 	funcs     map[string]bool
+	decided   map[*smt.Term]bool
+	funcSet   map[*fnInfo]struct{}
 }
 
 func (p *Path) eval(t *smt.Term) uint64 {
@@ -157,12 +159,28 @@ func (p *Path) ensureModel() {
 func (p *Path) addPC(c *smt.Term) {
 	p.pc = append(p.pc, c)
 	p.Sol.Assert(c)
+	if p.decided == nil {
+		p.decided = map[*smt.Term]bool{}
+	}
+	if c.Op == smt.OpBNot {
+		p.decided[c.Args[0]] = false
+	} else {
+		p.decided[c] = true
+	}
 }
 
 // Branch decides a symbolic condition, forking the other feasible side into the work queue.
 func (p *Path) Branch(c *smt.Term) bool {
 	if c.IsConst() {
 		return c.C != 0
+	}
+	if v, ok := p.decided[c]; ok {
+		return v
+	}
+	if c.Op == smt.OpBNot {
+		if v, ok := p.decided[c.Args[0]]; ok {
+			return !v
+		}
 	}
 	if p.pos < len(p.prefix) {
 		d := p.prefix[p.pos]
